@@ -122,10 +122,84 @@ def trsbox_call(st, rng):
     sl, su = box_for(rng, xopt, st["pos"], delta)
     g = grad_for(rng, st["sgn"], gscale)
     H = make_H(rng, n, st["hk"], (gscale / delta) * 10.0 ** rng.uniform(-2, 2))
+    coin = st.get("coin", "none")
+    if coin != "none":
+        xopt, g, H, sl, su, delta = coincidence(rng, st, coin, xopt, g, H, sl, su, delta)
     with warnings.catch_warnings(), np.errstate(all="ignore"):
         warnings.simplefilter("ignore")
         d, gnew, crvmin = trsbox(xopt.copy(), g.copy(), H.copy(), sl.copy(), su.copy(), delta, use_fortran=False)
     return trsbox_classes("trsbox", xopt, g, H, sl, su, delta, d, gnew), dict(delta=delta, gscale=gscale)
+
+
+def coincidence(rng, st, coin, xopt, g, H, sl, su, delta):
+    """re-shape a concretised trsbox input so that it lies in the measure-zero class `coin` of Kernels.tla (the class pattern is kept)"""
+    n = st["n"]
+    mov = [i for i in range(n) if st["pos"][i] == "in" and st["sgn"][i] != "zero"]
+    fixed = (xopt <= sl) & (g >= 0.0) | (xopt >= su) & (g <= 0.0)
+    # dyadic data, so that room / gradient ratios are exact: delta a power of two, xopt and the rooms multiples of delta/16
+    delta = 2.0 ** round(math.log2(delta))
+    x = np.round(xopt / delta * 16.0) / 16.0 * delta
+    sl, su = sl + (x - xopt), su + (x - xopt)        # shift the box with the point (at/near classes keep their meaning up to rounding)
+    for i in range(n):
+        if st["pos"][i] == "atL":
+            sl[i] = x[i]
+        elif st["pos"][i] == "atU":
+            su[i] = x[i]
+    xopt = x
+    s = -g.copy()
+    s[fixed] = 0.0
+    if coin == "tied_bounds":
+        k = int(rng.integers(2, len(mov) + 1))
+        tied = [int(i) for i in rng.choice(mov, size=k, replace=False)]
+        G = float(np.max(np.abs(g[tied])))
+        room = delta * float(rng.integers(2, 13)) / 16.0
+        for i in tied:
+            g[i] = math.copysign(G, g[i])
+            if g[i] < 0:
+                su[i] = xopt[i] + room
+            else:
+                sl[i] = xopt[i] - room
+        # the other movable coordinates reach their bounds later; the sphere lies beyond the corner
+        t = room / G
+        for i in mov:
+            if i not in tied:
+                if g[i] < 0:
+                    su[i] = max(su[i], xopt[i] + 3.0 * t * abs(g[i]))
+                else:
+                    sl[i] = min(sl[i], xopt[i] - 3.0 * t * abs(g[i]))
+        s = -g.copy()
+        s[fixed] = 0.0
+        delta = float(np.linalg.norm(t * s)) * float(rng.uniform(1.2, 3.0))
+    else:  # bound_on_sphere
+        i0 = int(rng.choice(mov))
+        if rng.random() < 0.5 and n >= 2:
+            g[i0] *= float(rng.uniform(3.0, 12.0))          # the bounded coordinate carries most of the gradient (its loss can reverse the rest)
+        s = -g.copy()
+        s[fixed] = 0.0
+        room = delta * float(rng.integers(2, 13)) / 16.0
+        if g[i0] < 0:
+            su[i0] = xopt[i0] + room
+        else:
+            sl[i0] = xopt[i0] - room
+        t = room / abs(g[i0])
+        for i in mov:
+            if i != i0:
+                if g[i] < 0:
+                    su[i] = max(su[i], xopt[i] + 3.0 * t * abs(g[i]) + delta)
+                else:
+                    sl[i] = min(sl[i], xopt[i] - 3.0 * t * abs(g[i]) - delta)
+        d1 = t * s
+        d1[i0] = math.copysign(room, s[i0])
+        delta = float(np.linalg.norm(d1))
+        for _ in range(int(rng.integers(0, 41))):
+            delta = float(np.nextafter(delta, np.inf))
+    # curvature: the bound (not the one-dimensional minimiser) ends the first step
+    shs = float(s @ (H @ s))
+    if shs > 0.0:
+        tn = float(s @ s) / shs
+        want = t * float(rng.uniform(1.2, 6.0))
+        H = H * (tn / want)
+    return xopt, g, H, sl, su, delta
 
 
 def trsbox_classes(name, xopt, g, H, sl, su, delta, d, gnew):
@@ -213,17 +287,49 @@ def geom_call(st, rng):
     return dict(ev="Kernel", name="trsbox_geometry", cl=cl), dict(Delta=Delta)
 
 
+def active_sets(rng, kinds, xopt, Delta, rel):
+    """convex sets containing xopt whose boundaries pass within the trust region; returns the projections and one outward normal per set"""
+    n = len(xopt)
+    projs, normals = [], []
+    for k in kinds:
+        if k == "half":
+            a = normals[0] + 0.05 * rng.normal(size=n) if (rel == "near_parallel" and normals) else rng.normal(size=n)
+            a = a / np.linalg.norm(a)
+            normals.append(a)
+            beta = float(a @ xopt) + rng.uniform(0.05, 0.6) * Delta
+            projs.append(lambda x, a=a, beta=beta: x - max(0.0, float(a @ x) - beta) * a)
+        elif k == "ball":
+            u = rng.normal(size=n)
+            u = u / np.linalg.norm(u)
+            normals.append(u)
+            rad = rng.uniform(1.0, 3.0) * Delta
+            ctr = xopt - u * (rad - rng.uniform(0.05, 0.6) * Delta)
+            projs.append(lambda x, ctr=ctr, rad=rad: ctr + (rad / max(np.linalg.norm(x - ctr), rad)) * (x - ctr))
+        else:
+            lo = xopt - rng.uniform(0.05, 0.6, size=n) * Delta
+            hi = xopt + rng.uniform(0.05, 0.6, size=n) * Delta
+            normals.append(np.where(rng.random(n) < 0.5, -1.0, 1.0) / math.sqrt(n))
+            projs.append(lambda x, lo=lo, hi=hi: np.minimum(np.maximum(x, lo), hi))
+    return projs, normals
+
+
 def convex_call(st, rng, seed):
     import dfols.trust_region as T
     n = st["n"]
     Delta = 10.0 ** rng.uniform(-2, 2)
-    c = rng.normal(size=n)
-    sets = problems.make_sets(dict(seed=seed, proj=list(st["sets"])), c)
-    projs = [s["proj"] for s in sets]
-    off = rng.normal(size=n)
-    off *= rng.uniform(0, 0.2) / np.linalg.norm(off)
-    xopt = c + off        # strictly inside every set (all sets contain a ball of radius >= 0.3 around c)
-    g = grad_for(rng, st["sgn"], 10.0 ** rng.uniform(-2, 2))
+    if st.get("act", "inside") == "active":
+        xopt = rng.normal(size=n)
+        projs, normals = active_sets(rng, list(st["sets"]), xopt, Delta, st.get("rel", "generic"))
+        dirn = sum(normals) + 0.3 * rng.normal(size=n)
+        g = -(10.0 ** rng.uniform(-2, 2)) * dirn / np.linalg.norm(dirn)      # steepest descent heads for the sets' boundaries
+    else:
+        c = rng.normal(size=n)
+        sets = problems.make_sets(dict(seed=seed, proj=list(st["sets"])), c)
+        projs = [s["proj"] for s in sets]
+        off = rng.normal(size=n)
+        off *= rng.uniform(0, 0.2) / np.linalg.norm(off)
+        xopt = c + off        # strictly inside every set (all sets contain a ball of radius >= 0.3 around c)
+        g = grad_for(rng, st["sgn"], 10.0 ** rng.uniform(-2, 2))
     H = make_H(rng, n, st["hk"], 10.0 ** rng.uniform(-2, 1) * float(np.linalg.norm(g)) / Delta)
     with warnings.catch_warnings(), np.errstate(all="ignore"):
         warnings.simplefilter("ignore")
